@@ -348,16 +348,13 @@ class Tdf:
                 "Can't add blocks, this file was opened in read-only mode"
             )
 
-        try:
-            if self.get_block(newBlock.type):
-                raise ValueError(
-                    (
-                        f"There's already a block of this type {newBlock.type}"
-                        " .Remove it first"
-                    )
+        if any(entry.type == newBlock.type for entry in self.entries):
+            raise ValueError(
+                (
+                    f"There's already a block of this type {newBlock.type}"
+                    " .Remove it first"
                 )
-        except Exception:
-            pass
+            )
 
         # find first unused slot
         try:
